@@ -161,7 +161,60 @@ func init() {
 
 	// ---------------- sync ----------------
 	noop := func(in *Interp, fr *frame, fn *ssa.Function, args []Value) Value { return resultZero(fn) }
-	reg("(*sync.Mutex).Lock (*sync.Mutex).Unlock (*sync.RWMutex).Lock (*sync.RWMutex).Unlock (*sync.RWMutex).RLock (*sync.RWMutex).RUnlock", noop)
+	// sync.Mutex: single-threaded lock state in the first word; locking a held
+	// mutex in the sequential schedule is a self-deadlock and reported as such.
+	mutexWord := func(in *Interp, recv Value) *Value {
+		pv, ok := recv.(*Value)
+		if !ok || pv == nil {
+			in.gopanic("runtime error: invalid memory address or nil pointer dereference (nil mutex)")
+		}
+		st, ok := (*pv).(Struct)
+		if !ok {
+			return nil
+		}
+		// Mutex{ _ noCopy; mu isync.Mutex{state int32; sema uint32} } or {state, sema}
+		for len(st) > 0 {
+			if _, isT := st[0].(*Term); isT {
+				return &st[0]
+			}
+			found := false
+			for i := range st {
+				if inner, ok := st[i].(Struct); ok && len(inner) > 0 {
+					st = inner
+					found = true
+					break
+				}
+			}
+			if !found {
+				return nil
+			}
+		}
+		return nil
+	}
+	reg("(*sync.Mutex).Lock", func(in *Interp, fr *frame, fn *ssa.Function, args []Value) Value {
+		if w := mutexWord(in, args[0]); w != nil {
+			if t, ok := (*w).(*Term); ok && t.IsConst() && t.C != 0 {
+				in.gopanic("deadlock: sync.Mutex.Lock of a mutex that is already held and never released on this schedule")
+			}
+			in.storeLeaf(w, ConstBV(32, 1))
+		}
+		return nil
+	})
+	reg("(*sync.Mutex).Unlock", func(in *Interp, fr *frame, fn *ssa.Function, args []Value) Value {
+		if w := mutexWord(in, args[0]); w != nil {
+			if t, ok := (*w).(*Term); ok && t.IsConst() && t.C == 0 {
+				in.gopanic("fatal error: sync: unlock of unlocked mutex")
+			}
+			in.storeLeaf(w, ConstBV(32, 0))
+		}
+		return nil
+	})
+	reg("(*sync.RWMutex).Lock (*sync.RWMutex).Unlock (*sync.RWMutex).RLock (*sync.RWMutex).RUnlock", noop)
+	reg("time.AfterFunc", func(in *Interp, fr *frame, fn *ssa.Function, args []Value) Value {
+		// the timer never fires by itself; harnesses invoke the callback where a firing is to be explored
+		v := zero(fn.Signature.Results().At(0).Type().(*types.Pointer).Elem())
+		return &v
+	})
 	reg("(*sync.WaitGroup).Add (*sync.WaitGroup).Done (*sync.WaitGroup).Wait (*sync.Cond).Broadcast (*sync.Cond).Signal", noop)
 	reg("(*sync.Mutex).TryLock (*sync.RWMutex).TryLock (*sync.RWMutex).TryRLock", func(in *Interp, fr *frame, fn *ssa.Function, args []Value) Value { return TrueT })
 	reg("(*sync.WaitGroup).Go", func(in *Interp, fr *frame, fn *ssa.Function, args []Value) Value {
